@@ -48,53 +48,59 @@ Feed(e) == FeedSeq(<<e>>)
 
 HE(act, t, k) == [c |-> act, t |-> t, k |-> k, at |-> K.nh]
 
-(****************************** caller task ********************************)
-\* with scope: emit call; try: await f(k) ...
-ClientStart(t) ==
-  /\ At(K, t, "client", "init")
-  /\ LET k == Top(K, t).a
-         q1 == ScopeEnter(K, t, FALSE, INF, FALSE, "task") IN
-     /\ K' = Call(q1, t, "ret", Frame("cache_call", "start", k, 0))
-     /\ Feed([ev |-> "call", c |-> t, k |-> k])
-  /\ UNCHANGED <<C, E, hist>>
+(****************************** one handle *********************************)
+\* While a handle resumes a task nothing else can move (Aio: K.run = that task), so the whole run
+\* of the task up to its next suspension is ONE step of this specification: the micro-steps of the
+\* frames (kernel helpers, Lock.acquire, __call__, the wrapped function, the caller) are composed
+\* functionally.  A run state is [q, c, evs, done]: kernel, cache, observable events so far, tasks
+\* that finished.
+RS(q, c, evs, done) == [q |-> q, c |-> c, evs |-> evs, done |-> done]
 
-\* ... except: emit ret; only a cancellation is re-raised into the scope
-ClientRet(t) ==
-  /\ At(K, t, "client", "ret")
-  /\ LET r == Reg(K, t)
-         res == IF ~IsExc(r) THEN "ok" ELSE IF IsCancel(r) THEN "cancelled"
-                ELSE IF r.e = KEYERROR THEN "internal" ELSE "err"
-         v == IF res \in {"ok", "err"} THEN r.e ELSE 0
-         x == ScopeExit(K, t, IF IsCancel(r) THEN r ELSE Val)
-     IN /\ Feed([ev |-> "ret", c |-> t, res |-> res, v |-> v])
-        /\ K' = IF IsExc(x.reg) THEN Raise(x.q, t, x.reg) ELSE Ret(x.q, t)
-  /\ UNCHANGED <<C, E, hist>>
+\* caller: "with scope: emit call; try: await f(k)"
+ClientStartF(S, t) ==
+  LET k == Top(S.q, t).a
+      q1 == ScopeEnter(S.q, t, FALSE, INF, FALSE, "task") IN
+  RS(Call(q1, t, "ret", Frame("cache_call", "start", k, 0)), S.c,
+     Append(S.evs, [ev |-> "call", c |-> t, k |-> k]), S.done)
 
-(****************************** library frames *****************************)
-LibStep(t) ==
-  \/ /\ HelperEnabled(K, t)
-     /\ K' = HelperStep(K, t)
-     /\ UNCHANGED <<C, E, hist, pst, pbad>>
-  \/ /\ LockAcqEnabled(K, t)
-     /\ LET lid == LockOfFrame(K, t)
-            r == LockAcqStep(K, C.locks[lid], t) IN
-        K' = r.q /\ C' = [C EXCEPT !.locks[lid] = r.lk]
-     /\ UNCHANGED <<E, hist, pst, pbad>>
-  \/ /\ CacheCallEnabled(K, t)
-     /\ LET r == CacheCallStep(K, C, t) IN K' = r.q /\ C' = r.c /\ FeedSeq(r.evs)
-     /\ UNCHANGED <<E, hist>>
-  \/ /\ WrappedEnabled(K, t)
-     /\ LET r == WrappedStep(K, C, t) IN K' = r.q /\ C' = r.c /\ FeedSeq(r.evs)
-     /\ UNCHANGED <<E, hist>>
-  \/ /\ FinishEnabled(K, t)
-     /\ K' = FinishTask(K, t)
-     /\ E' = [E EXCEPT !.live = @ \ {t}]
-     /\ UNCHANGED <<C, hist, pst, pbad>>
+\* "... except: emit ret"; only a cancellation is re-raised into the scope
+ClientRetF(S, t) ==
+  LET r == Reg(S.q, t)
+      res == IF ~IsExc(r) THEN "ok" ELSE IF IsCancel(r) THEN "cancelled"
+             ELSE IF r.e = KEYERROR THEN "internal" ELSE "err"
+      v == IF res \in {"ok", "err"} THEN r.e ELSE 0
+      x == ScopeExit(S.q, t, IF IsCancel(r) THEN r ELSE Val)
+  IN RS(IF IsExc(x.reg) THEN Raise(x.q, t, x.reg) ELSE Ret(x.q, t), S.c,
+        Append(S.evs, [ev |-> "ret", c |-> t, res |-> res, v |-> v]), S.done)
+
+Micro(S) ==
+  LET q == S.q
+      t == q.run IN
+  IF At(q, t, "client", "init") THEN ClientStartF(S, t)
+  ELSE IF At(q, t, "client", "ret") THEN ClientRetF(S, t)
+  ELSE IF HelperEnabled(q, t) THEN RS(HelperStep(q, t), S.c, S.evs, S.done)
+  ELSE IF LockAcqEnabled(q, t)
+  THEN LET lid == LockOfFrame(q, t)
+           r == LockAcqStep(q, S.c.locks[lid], t) IN
+       RS(r.q, [S.c EXCEPT !.locks[lid] = r.lk], S.evs, S.done)
+  ELSE IF CacheCallEnabled(q, t)
+  THEN LET r == CacheCallStep(q, S.c, t) IN RS(r.q, r.c, S.evs \o r.evs, S.done)
+  ELSE IF WrappedEnabled(q, t)
+  THEN LET r == WrappedStep(q, S.c, t) IN RS(r.q, r.c, S.evs \o r.evs, S.done)
+  ELSE RS(FinishTask(q, t), S.c, S.evs, S.done \cup {t})       \* FinishEnabled(q, t)
+
+RECURSIVE RunAll(_)
+RunAll(S) == IF S.q.run = NONE THEN S ELSE RunAll(Micro(S))
 
 Cycle == /\ CycleStartEnabled(K) /\ K' = CycleStart(K) /\ UNCHANGED <<C, E, hist, pst, pbad>>
-RunHandle == /\ PopEnabled(K)
-             /\ K' = RunKernelHandle(Popped(K), NextHandle(K))
-             /\ UNCHANGED <<C, E, hist, pst, pbad>>
+RunHandle ==
+  /\ PopEnabled(K)
+  /\ LET S == RunAll(RS(RunKernelHandle(Popped(K), NextHandle(K)), C, <<>>, {})) IN
+     /\ K' = S.q
+     /\ C' = S.c
+     /\ FeedSeq(S.evs)
+     /\ E' = [E EXCEPT !.live = @ \ S.done]
+  /\ UNCHANGED hist
 
 (****************************** environment *********************************)
 \* "idle": the loop went idle (Quiesce recorded it) and no handle has run since; several actions
@@ -169,7 +175,6 @@ Quiesce ==
 Next ==
   \/ Cycle
   \/ RunHandle
-  \/ \E t \in Task : ClientStart(t) \/ ClientRet(t) \/ LibStep(t)
   \/ \E k \in Keys : EnvCall(k)
   \/ \E t \in Task : EnvGate(t, "ok") \/ EnvGate(t, "fail") \/ EnvCancel(t) \/ EnvNative(t)
   \/ EnvTick
@@ -188,7 +193,8 @@ NoRetentionFinding == SigRetention \notin pst.known
 NoTwiceFinding == SigTwice \notin pst.known
 NoTtlOrderFinding == SigTtlOrder \notin pst.known
 
-TypeOK == /\ C.currsize \in 0..(MaxLocks + 1)
+\* (currsize itself is not constrained: on the pinned tree it drifts, even below zero, F3b)
+TypeOK == /\ C.nlk <= MaxLocks /\ C.nx <= MaxLocks
           /\ \A i, j \in DOMAIN C.ord : C.ord[i] = C.ord[j] => i = j
 \* a placeholder carries a lock, a result does not
 EntryShape == \A i \in DOMAIN C.ord : LET e == C.ent[C.ord[i]] IN (e.v = 0) = (e.lk # 0)
